@@ -48,16 +48,27 @@ fn open_pty() -> Option<(std::fs::File, std::fs::File)> {
 
 pub fn run_kestrel(w: &World, args: &[String]) -> CliObs { run_kestrel_opts(w, args, false, 30) }
 
+/// peak resident set size (KiB) of the child, measured by /usr/bin/time; big inputs are passed as files on disk
+pub fn run_kestrel_rss(w: &World, args: &[String], timeout_s: u64) -> (CliObs, usize) {
+    let mut a = vec!["-f".to_string(), "%M".to_string(), "-o".to_string(), "rss.txt".to_string(), bin()];
+    a.extend(args.iter().cloned());
+    let obs = run_cmd("/usr/bin/time", w, &a, false, timeout_s, true);
+    let kb = obs.file("rss.txt").and_then(|b| String::from_utf8_lossy(b).trim().lines().last().and_then(|l| l.trim().parse().ok())).unwrap_or(0);
+    (obs, kb)
+}
+
 /// like `run_kestrel`, but standard input is a terminal (nothing is ever typed on it)
 pub fn run_kestrel_tty(w: &World, args: &[String], timeout_s: u64) -> CliObs { run_kestrel_opts(w, args, true, timeout_s) }
 
-pub fn run_kestrel_opts(w: &World, args: &[String], tty_stdin: bool, timeout_s: u64) -> CliObs {
+pub fn run_kestrel_opts(w: &World, args: &[String], tty_stdin: bool, timeout_s: u64) -> CliObs { run_cmd(&bin(), w, args, tty_stdin, timeout_s, false) }
+
+pub fn run_cmd(program: &str, w: &World, args: &[String], tty_stdin: bool, timeout_s: u64, discard_stdout: bool) -> CliObs {
     let dir = format!("/verif/.cache/tmp/{}-{}", std::process::id(), COUNTER.fetch_add(1, Ordering::SeqCst));
     let _ = std::fs::remove_dir_all(&dir);
     std::fs::create_dir_all(&dir).expect("scratch dir");
     for (p, b) in &w.files { std::fs::write(format!("{}/{}", dir, p), b).expect("write fixture"); }
-    let mut cmd = Command::new(bin());
-    cmd.args(args).current_dir(&dir).env_clear().stdout(Stdio::piped()).stderr(Stdio::piped());
+    let mut cmd = Command::new(program);
+    cmd.args(args).current_dir(&dir).env_clear().stdout(if discard_stdout { Stdio::null() } else { Stdio::piped() }).stderr(Stdio::piped());
     let pty = if tty_stdin { open_pty() } else { None };
     match &pty { Some((_, slave)) => { cmd.stdin(Stdio::from(slave.try_clone().expect("dup pty"))); } None => { cmd.stdin(Stdio::piped()); } }
     for (k, v) in &w.env { cmd.env(k, v); }
@@ -68,8 +79,8 @@ pub fn run_kestrel_opts(w: &World, args: &[String], tty_stdin: bool, timeout_s: 
     let stdin = child.stdin.take();
     let data = w.stdin.clone();
     let tin = std::thread::spawn(move || { if let Some(mut si) = stdin { let _ = si.write_all(&data); } });
-    let mut so = child.stdout.take().unwrap(); let mut se = child.stderr.take().unwrap();
-    let tout = std::thread::spawn(move || { let mut v = vec![]; let _ = so.read_to_end(&mut v); v });
+    let so = child.stdout.take(); let mut se = child.stderr.take().unwrap();
+    let tout = std::thread::spawn(move || { let mut v = vec![]; if let Some(mut so) = so { let _ = so.read_to_end(&mut v); } v });
     let terr = std::thread::spawn(move || { let mut v = vec![]; let _ = se.read_to_end(&mut v); v });
     let t0 = Instant::now();
     let status = loop {
@@ -80,7 +91,7 @@ pub fn run_kestrel_opts(w: &World, args: &[String], tty_stdin: bool, timeout_s: 
     obs.stdout = tout.join().unwrap_or_default();
     obs.stderr = String::from_utf8_lossy(&terr.join().unwrap_or_default()).to_string();
     if let Some(s) = status { obs.exit = s.code(); obs.signal = s.code().is_none(); }
-    if let Ok(rd) = std::fs::read_dir(&dir) { for e in rd.flatten() { if let (Ok(name), Ok(b)) = (e.file_name().into_string(), std::fs::read(e.path())) { obs.files.push((name, b)); } } }
+    if let Ok(rd) = std::fs::read_dir(&dir) { for e in rd.flatten() { if let Ok(name) = e.file_name().into_string() { let big = e.metadata().map(|m| m.len() > (4 << 20)).unwrap_or(false); if big { obs.files.push((name, format!("<{} bytes>", e.metadata().map(|m| m.len()).unwrap_or(0)).into_bytes())); } else if let Ok(b) = std::fs::read(e.path()) { obs.files.push((name, b)); } } } }
     obs.files.sort();
     let _ = std::fs::remove_dir_all(&dir);
     obs
